@@ -195,3 +195,12 @@ Theorem C02_source_array_casts :
   transmute_of "GenericArray::AsMut<[T; U]>::as_mut" = Some ("transmute", "self") /\
   List.length gen_transmutes = 14%nat.
 Proof. repeat split. Qed.
+
+(* the tuple conversions (impl_tuple!, src/impls.rs) as they stand now: safe destructuring in both
+   directions, through from_array / into_array *)
+Theorem C02_source_tuple_bodies :
+  gen_tuple_bodies =
+  ("let ($ ($ t ,) *) = tuple ; GenericArray :: from_array ([$ ($ t ,) *])",
+   "let [$ ($ t) ,*] = array . into_array () ; ($ ($ t ,) *)").
+Proof. exact tie_tuple_bodies. Qed.
+
